@@ -13,10 +13,21 @@ package circuitbreaker
 // Established by package initialisation (errors.New returns distinct non-nil values); assumed here.
 //@ axiom ErrCircuitBreakerOpen != nil && ErrTooManyRequests != nil && ErrCircuitBreakerOpen != ErrTooManyRequests
 
-// The state-change callback is invoked while the write lock is held. Assumed of the callback: it returns,
-// does not panic and does not touch the breaker. The callback Helios installs is verified against the
-// caller-side guarantee (write lock held) in internal/loadbalancer.
+// What holds whenever the lock is free, under every interleaving (the schedule-stable part of cbInv):
+// in particular never more than max_requests trial requests are admitted, however they arrive.
+//@ monitor CircuitBreaker.mutex cb
+//@   guards state, failureCount, successCount, requestCount, lastFailureTime, lastSuccessTime, nextAttempt
+//@   inv state_range: 0 <= cb.state && cb.state <= 2
+//@   inv admitted_le_max: cb.state == StateHalfOpen ==> cb.requestCount <= cb.maxRequests
+
+// State-change notifications. Assumed of an installed callback: it returns and does not panic. Guaranteed
+// to it (obligation below, at every place a notification is run): the breaker's lock is NOT held, so the
+// callback may call the breaker. The callback Helios installs is verified against exactly that guarantee.
 //@ func fnvalue:(*CircuitBreaker).setState:onStateChange
+//@ func fnvalue:(*CircuitBreaker).afterRequest:notify
+//@   requires notification_runs_unlocked: unlocked(cb.mutex)
+//@ func fnvalue:(*CircuitBreaker).beforeRequest:notify
+//@   requires notification_runs_unlocked: unlocked(cb.mutex)
 
 //@ func (*CircuitBreaker).setState
 //@   props C07 C08
@@ -24,6 +35,36 @@ package circuitbreaker
 //@   requires wlocked(cb.mutex)
 //@   ensures set: cb.state == state
 //@   modifies cb.state
+
+//@ func (*CircuitBreaker).admitLocked
+//@   props C07 C08
+//@   mode seq, mon
+//@   requires wlocked(cb.mutex)
+//@   ensures closed: cb.state == StateClosed ==> result == nil && cb.requestCount == old(cb.requestCount)
+//@   ensures open: cb.state == StateOpen ==> result == ErrCircuitBreakerOpen && cb.requestCount == old(cb.requestCount)
+//@   ensures half_open_counts_trial: cb.state == StateHalfOpen && old(cb.requestCount) < cb.maxRequests ==> result == nil && cb.requestCount == old(cb.requestCount) + 1
+//@   ensures half_open_limit: cb.state == StateHalfOpen && old(cb.requestCount) >= cb.maxRequests ==> result == ErrTooManyRequests && cb.requestCount == old(cb.requestCount)
+//@   modifies cb.requestCount
+
+//@ func (*CircuitBreaker).recordResultLocked
+//@   props C07 C08
+//@   mode seq, mon
+//@   requires wlocked(cb.mutex) && cbCfg(cb) && 0 <= cb.state && cb.state <= 2
+//@   requires seq: cbInv(cb)
+//@   ensures seq: inv: cbInv(cb)
+//@   ensures state_range: 0 <= cb.state && cb.state <= 2
+//@   ensures trial_success: success && old(cb.state) == StateHalfOpen ==>
+//@             cb.successCount == (old(cb.successCount) + 1) % 4294967296 &&
+//@             (cb.successCount >= cb.successThreshold ? cb.state == StateClosed && cb.failureCount == 0 : cb.state == StateHalfOpen)
+//@   ensures success_keeps: success && old(cb.state) != StateHalfOpen ==> cb.state == old(cb.state) && cb.failureCount == old(cb.failureCount)
+//@   ensures trip: !success && old(cb.state) == StateClosed ==>
+//@             cb.failureCount == (old(cb.failureCount) + 1) % 4294967296 &&
+//@             (cb.failureCount >= cb.failureThreshold ? cb.state == StateOpen && cb.nextAttempt == now() + cb.timeout : cb.state == StateClosed)
+//@   ensures reopen: !success && old(cb.state) == StateHalfOpen ==> cb.state == StateOpen && cb.nextAttempt == now() + cb.timeout
+//@   ensures stamp: !success ==> cb.lastFailureTime == now()
+//@   ensures open_stays: old(cb.state) == StateOpen ==> cb.state == StateOpen && cb.nextAttempt == old(cb.nextAttempt)
+//@   ensures req_kept: cb.requestCount == old(cb.requestCount)
+//@   modifies cb.state, cb.failureCount, cb.successCount, cb.lastFailureTime, cb.lastSuccessTime, cb.nextAttempt
 
 //@ func (*CircuitBreaker).afterRequest
 //@   props C07 C08
@@ -57,20 +98,17 @@ package circuitbreaker
 //@   ensures seq: no_reset_within_interval: old(cb.state) == StateClosed && (old(cb.lastFailureTime) == TZERO || old(cb.lastFailureTime) + cb.interval >= now())
 //@             ==> cb.failureCount == old(cb.failureCount)
 //@   ensures seq: open_blocks: old(cb.state) == StateOpen && old(cb.nextAttempt) >= now()
-//@             ==> result == ErrCircuitBreakerOpen && cb.state == StateOpen
+//@             ==> result == ErrCircuitBreakerOpen && cb.state == StateOpen && cb.requestCount == old(cb.requestCount)
 //@   ensures seq: open_to_half: old(cb.state) == StateOpen && old(cb.nextAttempt) < now()
-//@             ==> result == nil && cb.state == StateHalfOpen && cb.requestCount == 0 && cb.successCount == 0
+//@             ==> result == nil && cb.state == StateHalfOpen && cb.requestCount == 1 && cb.successCount == 0
 //@   ensures seq: half_limit: old(cb.state) == StateHalfOpen ==>
-//@             cb.state == StateHalfOpen && cb.requestCount == old(cb.requestCount) && cb.successCount == old(cb.successCount)
+//@             cb.state == StateHalfOpen && cb.successCount == old(cb.successCount)
 //@             && (result == nil <==> old(cb.requestCount) < cb.maxRequests)
-//@             && (result != nil ==> result == ErrTooManyRequests)
+//@             && (result == nil ==> cb.requestCount == old(cb.requestCount) + 1)
+//@             && (result != nil ==> result == ErrTooManyRequests && cb.requestCount == old(cb.requestCount))
+//@   ensures result_kind: result == nil || result == ErrCircuitBreakerOpen || result == ErrTooManyRequests
+//@   ensures seq: failures_kept: cb.lastFailureTime == old(cb.lastFailureTime) && cb.nextAttempt == old(cb.nextAttempt)
 //@   modifies cb.state, cb.failureCount, cb.successCount, cb.requestCount
-
-// What holds whenever the lock is free, under every interleaving (the schedule-stable part of cbInv).
-//@ monitor CircuitBreaker.mutex cb
-//@   guards state, failureCount, successCount, requestCount, lastFailureTime, lastSuccessTime, nextAttempt
-//@   inv state_range: 0 <= cb.state && cb.state <= 2
-//@   inv admitted_le_max: cb.state == StateHalfOpen ==> cb.requestCount <= cb.maxRequests
 
 // quiescent: no trial request is in flight (every admitted trial has reported)
 //@ pred quiescent(cb *CircuitBreaker) := cb.state == StateHalfOpen ==> cb.requestCount == cb.successCount
@@ -101,6 +139,14 @@ package circuitbreaker
 //@             ==> cb.state == StateOpen && cb.nextAttempt == now() + cb.timeout
 //@   ensures seq: closes_only_on_threshold: old(cb.state) != StateClosed && cb.state == StateClosed
 //@             ==> calls(fn) == 1 && result == nil && cb.successThreshold <= (old(cb.state) == StateHalfOpen ? old(cb.successCount) + 1 : 1)
+// C08, recovery as a variant: from a quiescent state, once the timeout has elapsed, a request is admitted, and
+// if it succeeds the breaker is closed or strictly closer to closing (and quiescent again) - for every
+// configuration with max_requests >= success_threshold.
+//@   ensures seq: recovery_admits: old(quiescent(cb)) && cb.maxRequests >= cb.successThreshold
+//@             && (old(cb.state) == StateOpen ==> old(cb.nextAttempt) < old(now())) ==> calls(fn) == 1
+//@   ensures seq: recovery_progress: old(quiescent(cb)) && cb.maxRequests >= cb.successThreshold && calls(fn) == 1 && result == nil ==>
+//@             cb.state == StateClosed || (cb.state == StateHalfOpen && quiescent(cb)
+//@                && cb.successCount == (old(cb.state) == StateHalfOpen ? old(cb.successCount) + 1 : 1))
 //@   ensures_panic panicked_in_fn: calls(fn) == 1
 //@   ensures_panic seq: panic_counts_as_failure: cb.lastFailureTime == now() && cbInv(cb)
 //@   modifies cb.state, cb.failureCount, cb.successCount, cb.requestCount, cb.lastFailureTime, cb.lastSuccessTime, cb.nextAttempt
